@@ -11,7 +11,10 @@ vars == <<g, phase>>
 
 Init == g \in GraphFamily(Family, RndN, RndK) /\ phase = "chosen"
 Line(G) ==
-  IF Mode = "id"
+  IF Mode = "tian"
+  THEN [g |-> [n |-> G.n, d |-> G.d, b |-> G.b],
+        qs |-> {<<p[1], p[2], o, TIdent(G, p[2], p[1])>> : p \in TianPairs(G), o \in TopoOrders(G)}]
+  ELSE IF Mode = "id"
   THEN [g |-> [n |-> G.n, d |-> G.d, b |-> G.b],
         qs |-> {<<p[1], p[2], {}, ~IsFail(IDRef(G, p[1], p[2]))>> : p \in Queries(G)}]
   ELSE [g |-> [n |-> G.n, d |-> G.d, b |-> G.b],
